@@ -1222,3 +1222,16 @@ Proof.
   - repeat constructor; cbn; congruence.
   - intros H. specialize (H 0%Z). vm_compute in H. destruct H as (_ & _ & H). specialize (H "w"). vm_compute in H. discriminate.
 Qed.
+
+(* isolation of one plain to_module call: no tensor content is written, no module outside the visited ones (memo) is
+   touched, _modules and module types never change *)
+Theorem swap_isolated b st st1 memo1 swap :
+  block_ok (t_heap st) b ->
+  to_module (cfg_of b true) (b_params b) (b_target b) st = TmOk st1 memo1 swap ->
+  t_vals st1 = t_vals st /\ t_next st1 = t_next st /\ struct_same (t_heap st) (t_heap st1)
+  /\ (forall c, z_get memo1 c = None -> hg st1 c = hg st c) /\ (wf_heap (t_heap st) -> wf_heap (t_heap st1)).
+Proof.
+  intros Hb Ht. destruct (enter_facts b st st1 memo1 swap Hb Ht) as (P1 & _).
+  destruct P1 as (B1 & B2 & B3 & B4 & B5 & B6 & B7 & B8).
+  repeat split; auto. intros c Hc. apply B5. intros (T1 & T2). congruence.
+Qed.
